@@ -225,7 +225,7 @@ func (e *Exec) step(st *State, fr *Frame, ins ssa.Instruction) []*State {
 
 func concreteInt(v Value) (int64, bool) {
 	t, ok := v.(*Term)
-	if !ok || !t.IsConst() || t.Sort.K != SBV {
+	if !ok || !t.IsConst() || (t.Sort.K != SBV && t.Sort.K != SInt) {
 		return 0, false
 	}
 	return t.SVal(), true
@@ -311,9 +311,19 @@ func (e *Exec) binop(st *State, fr *Frame, x *ssa.BinOp, site string) []*State {
 		fr.Env[x] = e.realBinop(st, x.Op, ta, tb)
 		return []*State{st}
 	}
-	// bit-vectors
+	// bit-vectors (or mathematical integers in math-int mode; the BV constructors dispatch on the sort)
 	signed := isSigned(xt)
 	w := ta.Sort.W
+	if ta.Sort.K == SInt {
+		signed, w = true, 64
+		if x.Op == token.SHL || x.Op == token.SHR || x.Op == token.AND || x.Op == token.OR || x.Op == token.XOR || x.Op == token.AND_NOT {
+			if x.Op == token.SHL && tb.IsConst() && tb.SVal() >= 0 && tb.SVal() < 62 {
+				fr.Env[x] = intBin("bvmul", ta, IntConst(int64(1)<<uint(tb.SVal())))
+				return []*State{st}
+			}
+			fail("bit operation %v on mathematical integers at %s", x.Op, site)
+		}
+	}
 	switch x.Op {
 	case token.ADD:
 		fr.Env[x] = BVBin("bvadd", ta, tb)
@@ -323,6 +333,14 @@ func (e *Exec) binop(st *State, fr *Frame, x *ssa.BinOp, site string) []*State {
 		fr.Env[x] = BVBin("bvmul", ta, tb)
 	case token.QUO, token.REM:
 		ok, outs := e.guard(st, Eq(tb, BVConst(0, w)), "integer divide by zero", site)
+		if ta.Sort.K == SInt && ok != nil {
+			opn := "bvsdiv"
+			if x.Op == token.REM {
+				opn = "bvsrem"
+			}
+			ok.Top().Env[x] = intBin(opn, ta, tb)
+			return append(outs, ok)
+		}
 		if ok != nil {
 			op := map[bool]map[token.Token]string{true: {token.QUO: "bvsdiv", token.REM: "bvsrem"}, false: {token.QUO: "bvudiv", token.REM: "bvurem"}}[signed][x.Op]
 			if e.cfg["div"] == "uf" && !tb.IsConst() {
@@ -474,6 +492,9 @@ func (e *Exec) convert(st *State, v Value, from, to types.Type, site string) Val
 		if ok1 && ok2 {
 			switch {
 			case fb.Info()&types.IsInteger != 0 && tb.Info()&types.IsInteger != 0:
+				if t.Sort.K == SInt {
+					return t
+				}
 				tw := e.sortOf(to).W
 				if tw <= t.Sort.W {
 					return Extract(tw-1, 0, t)
@@ -491,7 +512,10 @@ func (e *Exec) convert(st *State, v Value, from, to types.Type, site string) Val
 				}
 				return FPFromUBV(t)
 			case fb.Info()&types.IsFloat != 0 && tb.Info()&types.IsInteger != 0:
-				tw := e.sortOf(to).W
+				tw := 64
+				if !mathInts {
+					tw = e.sortOf(to).W
+				}
 				if e.fpRelaxed {
 					return e.realToInt(st, t, tw, isSigned(to))
 				}
@@ -562,7 +586,7 @@ func (e *Exec) convert(st *State, v Value, from, to types.Type, site string) Val
 func (e *Exec) indexAddr(st *State, fr *Frame, x *ssa.IndexAddr, site string) []*State {
 	base := e.eval(st, fr, x.X)
 	idx := e.eval(st, fr, x.Index).(*Term)
-	if idx.Sort.W < 64 {
+	if idx.Sort.K == SBV && idx.Sort.W < 64 {
 		if isSigned(x.Index.Type()) {
 			idx = SignExt(idx, 64)
 		} else {
